@@ -26,7 +26,8 @@ from symx import harness as H
 
 MOD = "harness.C17"
 MASSES2 = [3.0, 25.0, 30000.0]
-REF = (10.0, 4)  # mu_ref = 10 GeV (mu^2 = 100, between the charm and bottom walls), nf = 4
+RATIOS = [2.0, 0.5, 1.5]  # matching scales 6, 12.5, 45000 GeV^2; non-unit ratios so that every order >= 2 has a non-trivial matching factor
+REF = (3.0, 4)  # mu_ref = 3 GeV (mu^2 = 9, between the charm and bottom walls), nf = 4
 
 
 class SymCache:
@@ -91,9 +92,31 @@ class Ufun:
         return symarr(list(res))
 
 
+class MatchNumpy(CplNumpy):
+    """np for eko.matchings: digitize over walls that contain +inf (a symbolic scale is never >= inf)"""
+
+    def digitize(self, x, bins, right=False):
+        if not isinstance(x, SR):
+            return CplNumpy.digitize(self, x, bins, right=right)
+        i = 0
+        for b in list(bins):
+            if isinstance(b, float) and b == float("inf"):
+                break
+            c = (x > b) if right else (x >= b)
+            if c if isinstance(c, bool) else bool(c):
+                i += 1
+            else:
+                break
+        return i
+
+
 def _load():
     cpl = cpl_module("eko.couplings")
     cpl.float = sym_float
+    import importlib
+    from symx import shim as _sh
+
+    _sh.install(importlib.import_module("eko.matchings"), np=MatchNumpy())  # nf_default (np.digitize) for default-flow queries
     return cpl
 
 
@@ -111,7 +134,7 @@ def _make(cpl, U, order, method, em_running):
 
     info = CouplingsInfo(alphas=0.2, alphaem=0.0075, ref=REF, em_running=em_running)
     meth = CouplingEvolutionMethod.EXACT if method == "exact" else CouplingEvolutionMethod.EXPANDED
-    sc = cpl.Couplings(info, order, meth, list(MASSES2), QuarkMassScheme.POLE, [1.0, 1.0, 1.0])
+    sc = cpl.Couplings(info, order, meth, list(MASSES2), QuarkMassScheme.POLE, list(RATIOS))
     sc.cache = SymCache()
     sc.a_ref = symarr([SR.var("aref0"), SR.var("aref1")])
     sc.compute_exact_fixed_alphaem = lambda a, nf, s0, s1: U("rge", a[0], a[1], nf, 0, s0, s1)
@@ -183,7 +206,7 @@ def case_inductive(log, order, method, em_running, nf_q, npre):
                 a0, a1, s0, s1 = (SR.var("p%d_%s" % (p, n)) for n in ("a0", "a1", "from", "to"))
                 for s in (s0, s1):
                     _domain_scale(s)
-                for nfp in ((nf_q,) if p == 0 else (REF[1],)):
+                for nfp in ((nf_q if nf_q is not None else 5,) if p == 0 else (REF[1],)):
                     nl = 3
                     key = (a0, a1, nfp, nl, s0, s1)
                     sc.cache[key] = U("rge", a0, a1, nfp, nl if (em_running and order[1] > 0) else 0, s0, s1)
@@ -197,7 +220,7 @@ def case_inductive(log, order, method, em_running, nf_q, npre):
             fresh = _make(cpl, U, order, method, em_running).a(s, nf_q)
             rp = (MOD, "replay_history", {"order": list(order), "method": method, "em_running": em_running, "nfs": [nf_q, nf_q]})
             for j in range(2):
-                v = prove_zero(SR(0) + got[j] - fresh[j], "order %r %s, %d arbitrary valid cache entries, query nf=%d: answer (entry %d) equals the answer of a fresh object" % (tuple(order), method, npre, nf_q, j))
+                v = prove_zero(SR(0) + got[j] - fresh[j], "order %r %s, %d arbitrary valid cache entries, query nf=%r: answer (entry %d) equals the answer of a fresh object" % (tuple(order), method, npre, nf_q, j))
                 D(v, key="Couplings.a:history", replay=rp, sampler=_sampler)
             # validity preserved
             for key, val in list(sc.cache.items):
@@ -214,7 +237,7 @@ def case_inductive(log, order, method, em_running, nf_q, npre):
 
 
 def _sampler(rng):
-    walls = [3.0, 25.0, 100.0, 1.777**2, 30000.0]
+    walls = [6.0, 12.5, 9.0, 1.777**2, 45000.0]
     p = {}
     for i in range(3):
         p["s%d" % i] = Fraction(rng.choice(walls)).limit_denominator(10**9) if rng.random() < 0.4 else rnd(rng, 2, 900)
@@ -235,7 +258,7 @@ def replay_history(point, order, method, em_running, nfs):
     def make():
         info = CouplingsInfo(alphas=0.2, alphaem=0.0075, ref=REF, em_running=em_running)
         meth = CouplingEvolutionMethod.EXACT if method == "exact" else CouplingEvolutionMethod.EXPANDED
-        return Couplings(info, tuple(order), meth, list(MASSES2), QuarkMassScheme.POLE, [1.0, 1.0, 1.0])
+        return Couplings(info, tuple(order), meth, list(MASSES2), QuarkMassScheme.POLE, list(RATIOS))
 
     scales = [float(point.get("s%d" % i, [30.0, 3.0, 30.0][i % 3])) for i in range(len(nfs))]
     if any(not 1 < s < 1e5 for s in scales):
@@ -256,7 +279,7 @@ def replay_history(point, order, method, em_running, nfs):
         for i, (s, nf) in enumerate(zip(sv, nfs)):
             f = make().a(s, nf)
             if not np.allclose(outs[i], f, rtol=1e-12, atol=0):
-                return {"detail": "query %d (mu^2=%r, nf=%d) after history %r returned %r, a fresh object returns %r (order %r, %s, em_running=%r)" % (i + 1, s, nf, list(zip(sv, nfs))[:i], list(outs[i]), list(f), tuple(order), method, em_running)}
+                return {"detail": "query %d (mu^2=%r, nf=%r) after history %r returned %r, a fresh object returns %r (order %r, %s, em_running=%r)" % (i + 1, s, nf, list(zip(sv, nfs))[:i], list(outs[i]), list(f), tuple(order), method, em_running)}
         if not np.array_equal(ref0, sc.a_ref):
             return {"detail": "a_ref changed from %r to %r by the history %r" % (list(ref0), list(sc.a_ref), list(zip(sv, nfs)))}
     return None
@@ -267,32 +290,36 @@ def main():
     thorough = H.tier() == "thorough"
     preimport("eko.couplings")
     chk.bounds = ["histories of 1-3 queries; query scales free symbols in (1, 1e5) GeV^2 (forks cover scales equal to the reference, to a matching scale, to the tau "
-                  "mass and to earlier queries), requested nf in {3,4,5} around the reference nf=4 (quick: all 9 pairs and the triple (4,4,4); thorough: 9 triples)",
+                  "mass and to earlier queries), requested nf in {3,4,5, None = default flow} around the reference nf=4 (quick: all 9 explicit pairs, 6 pairs with default-flow queries, the triple (4,4,4); thorough: 11 triples)",
                   "caller mutates both entries of every returned array in place by free symbolic amounts",
-                  "orders (2,0) and (3,1) [running alpha_em: two-leg evolution through the tau mass]; methods expanded and exact (dispatch only: the RGE solution is uninterpreted)",
+                  "orders (3,0) (constant + logarithmic matching terms, matching ratios 2, 0.5, 1.5) and (3,1) [running alpha_em: two-leg evolution through the tau mass]; methods expanded and exact (dispatch only: the RGE solution is uninterpreted)",
                   "inductive step: 0-2 arbitrary valid cache entries with symbolic keys, one query, validity of the whole cache afterwards -> histories of any length"]
-    chk.out_of_claim = ["nf_to=None (default flavour number through np.digitize): C19", "floating-point hashing of cache keys (keys compared as real numbers)",
+    chk.out_of_claim = ["floating-point hashing of cache keys (keys compared as real numbers)",
                         "thread safety"]
     chk.stubs = ["couplings_expanded_fixed_alphaem / couplings_expanded_alphaem_running / compute_exact_* -> one uninterpreted function of (a_ref, nf, nl, from, to) "
                  "returning a NEW array per call, with congruence axioms for every pair of calls",
                  "Couplings.cache -> list-backed mapping with symbolic tuple equality (same KeyError / assignment interface)",
                  "builtin float() -> identity on symbolic values"]
-    chk.assumptions = ["matching scales concrete (3, 25, 30000 GeV^2), reference (100 GeV^2, nf=4): the cache logic does not depend on their values"]
+    chk.assumptions = ["matching scales concrete (6, 12.5, 45000 GeV^2), reference (9 GeV^2, nf=4): the cache logic does not depend on their values"]
+    O = (3, 0)  # NNLO: the matching factors carry a constant term, so the upward and downward tables differ visibly
     pairs = [list(p) for p in itertools.product((3, 4, 5), repeat=2)]
-    triples = [[4, 4, 4]] if not thorough else [[4, 4, 4], [5, 4, 5], [3, 5, 3], [3, 4, 5], [5, 4, 3], [4, 3, 4], [4, 5, 4], [5, 3, 5], [3, 3, 3]]
-    chk.case("history.expanded.o20.len1", case_history, order=(2, 0), method="expanded", em_running=False, nfs_list=[[3], [4], [5]])
+    triples = [[4, 4, 4]] if not thorough else [[4, 4, 4], [5, 4, 5], [3, 5, 3], [3, 4, 5], [5, 4, 3], [4, 3, 4], [4, 5, 4], [5, 3, 5], [3, 3, 3], [5, None, 3], [None, 4, None]]
+    chk.case("history.expanded.o30.len1", case_history, order=O, method="expanded", em_running=False, nfs_list=[[3], [4], [5], [None]])
     for pr in pairs:
-        chk.case("history.expanded.o20.len2.%d%d" % tuple(pr), case_history, order=(2, 0), method="expanded", em_running=False, nfs_list=[pr])
+        chk.case("history.expanded.o30.len2.%d%d" % tuple(pr), case_history, order=O, method="expanded", em_running=False, nfs_list=[pr])
+    # default-flow queries (nf_to=None -> nf from the position of the scale among the matching scales) mixed with explicit ones
+    for pr in ([3, None], [4, None], [5, None], [None, 3], [None, 5], [None, None]):
+        chk.case("history.expanded.o30.len2.%s" % "".join("d" if x is None else str(x) for x in pr), case_history, order=O, method="expanded", em_running=False, nfs_list=[pr])
     for t in triples:
-        chk.case("history.expanded.o20.len3.%s" % "".join(map(str, t)), case_history, order=(2, 0), method="expanded", em_running=False, nfs_list=[t])
-    for pr in ([4, 4], [5, 4], [3, 3]):
-        chk.case("history.exact.o20.len2.%d%d" % tuple(pr), case_history, order=(2, 0), method="exact", em_running=False, nfs_list=[pr])
+        chk.case("history.expanded.o30.len3.%s" % "".join("d" if x is None else str(x) for x in t), case_history, order=O, method="expanded", em_running=False, nfs_list=[t])
+    for pr in ([4, 4], [5, 3], [3, None]):
+        chk.case("history.exact.o30.len2.%s" % "".join("d" if x is None else str(x) for x in pr), case_history, order=O, method="exact", em_running=False, nfs_list=[pr])
     for pr in ([[4, 4]] if not thorough else [[4, 4], [3, 4]]):
         chk.case("history.expanded.o31.running.len2.%d%d" % tuple(pr), case_history, order=(3, 1), method="expanded", em_running=True, nfs_list=[pr])
     chk.case("history.exact.o31.running.len2.44", case_history, order=(3, 1), method="exact", em_running=True, nfs_list=[[4, 4]])
-    for nf_q in (3, 4, 5):
+    for nf_q in (3, 4, 5, None):
         for npre in ((1, 2) if (thorough or nf_q == 4) else (1,)):
-            chk.case("inductive.expanded.o20.nf%d.pre%d" % (nf_q, npre), case_inductive, order=(2, 0), method="expanded", em_running=False, nf_q=nf_q, npre=npre)
+            chk.case("inductive.expanded.o30.nf%s.pre%d" % ("d" if nf_q is None else nf_q, npre), case_inductive, order=O, method="expanded", em_running=False, nf_q=nf_q, npre=npre)
     chk.case("inductive.exact.o31.running.nf4.pre1", case_inductive, order=(3, 1), method="exact", em_running=True, nf_q=4, npre=1)
     return chk.run()
 
